@@ -74,7 +74,7 @@ func hookC14(e *pagedrv.Env, last O) {
 
 func runC14(ctx *core.Ctx, pool *par.Pool) {
 	cfgs := []pagedrv.Cfg{pagedrv.CfgA, pagedrv.CfgC}
-	depth := 6
+	depth := 7
 	ctx.SetBudget(110 * time.Second)
 	if !ctx.Quick() {
 		cfgs = []pagedrv.Cfg{pagedrv.CfgA, pagedrv.CfgB, pagedrv.CfgC}
